@@ -74,10 +74,15 @@ def frac_safe_rates(q):
 # prefixes of each other (OGI with OGI_FU, a_b with a_b_c) and names that end in a fragment of a
 # parameter suffix (M_survey, X_site): every level looks a method's column up as exactly
 # `method + suffix`, never by splitting the column name
-METHOD_SETS = [["M1"], ["M1", "OGI"], ["OGI", "AB"], ["OGI", "OGI_FU"], ["OGI_FU"], ["AIR_2", "M1"],
+METHOD_SETS = [[], ["M1"], ["M1", "OGI"], ["OGI", "AB"], ["OGI", "OGI_FU"], ["OGI_FU"], ["AIR_2", "M1"],
                ["a_b_c", "a_b"], ["M_survey", "M"], ["X_site", "X_deploy"], ["OGI_FU", "OGI", "M_survey"]]
-EQUIP_STRINGS = [["e1"], ["e2"], ["e3"], ["e1", "e2"], ["e2", "e3"], ["e1", "e3"], ["e1", "e2", "e3"],
-                 ["e1", "e1"], ["e3", "e2", "e1"]]
+EQUIP_STRINGS = [[0], [1], [2], [0, 1], [1, 2], [0, 2], [0, 1, 2], [0, 0], [2, 1, 0]]   # indices into the names
+# names with underscores and digits, names that are prefixes of each other, ids whose numeric and
+# lexicographic orders differ
+EQUIP_NAME_SETS = [["e1", "e2", "e3"], ["e1", "e1_b", "e10"], ["tank_2", "tank", "x9"]]
+COMP_NAME_SETS = [["c1", "c2", "c3"], ["c1", "c1_x", "c10"], ["valve_2", "valve", "p9"]]
+TYPE_NAME_SETS = [["A", "B"], ["A_1", "A"], ["T10", "T9"], ["well_pad", "well"]]
+START_DATES = [[2023, 1, 1], [2024, 2, 29], [2023, 12, 31], [2024, 3, 1], [2025, 2, 28], [2024, 12, 31]]
 
 
 class Gen:
@@ -111,7 +116,7 @@ class Gen:
         return epr_val(self.fresh("epr", self.grid_ok[numeric]), numeric)
 
     def v_dur(self):
-        d = self.fresh("dur", range(1, 500))
+        d = 0 if self.rng.random() < 0.03 else self.fresh("dur", range(1, 500))
         return d + 0.5 if self.rng.random() < self.frac_durations else d
 
     def v_flag(self):
@@ -127,9 +132,11 @@ class Gen:
         return self.rng.choice([0.0, 0.125, 0.25, 0.375, 0.5, 0.625, 0.75, 0.875, 1.0])
 
     def v_freq(self):
-        return self.fresh("freq", range(1, 25))
+        return 0 if self.rng.random() < 0.05 else self.fresh("freq", range(1, 25))
 
     def v_scaled(self):          # survey time / cost given per site: /2 and /3 (and /0.5 /1.5 /2.5) are exact
+        if self.rng.random() < 0.04:
+            return 0.0
         return (7.5 if self.frac_rates else 1.5) * self.fresh("sc", range(1, 400))
 
     def v_group(self):           # survey time / cost given per equipment group: any dyadic
@@ -265,7 +272,9 @@ def gen_case(rng, tables, grid_ok, force=None):
                 row[col] = None
 
     # sources file -------------------------------------------------------------------------------
-    comp_types = ["c1", "c2", "c3"][: rng.randint(1, 3)]
+    comp_types = list(rng.choice(COMP_NAME_SETS))[: rng.randint(1, 3)]
+    eq_names = list(rng.choice(EQUIP_NAME_SETS))
+    src_fmt = rng.choice(["s%d", "s%d", "s_%d", "src%d_a"])
     sources = None
     if (not numeric) or rng.random() < 0.5:
         src_keys = [tb["srcErs"], tb["srcEpr"], tb["srcDur"], tb["srcMulti"], tb["srcRd"], tb["srcRc"]]
@@ -276,10 +285,11 @@ def gen_case(rng, tables, grid_ok, force=None):
                     cols.append((me + s, s))
         rows, n = [], 0
         for ct in comp_types:
-            kinds = rng.choice([[True], [False], [True, False], [True, False], [True, True, False], [False, True, False]])
+            kinds = rng.choice([[True], [False], [True, False], [True, False], [True, True, False],
+                                [False, True, False], [True, False], []])   # [] : a component type without sources
             for rp in kinds:
                 n += 1
-                row = {"component": ct, "source": "s%d" % n, "repairable": rp, "persistent": True,
+                row = {"component": ct, "source": src_fmt % n, "repairable": rp, "persistent": True,
                        "active_duration": 1, "inactive_duration": 0}
                 for (col, suffix) in cols:
                     if rng.random() < p_cell:
@@ -302,29 +312,31 @@ def gen_case(rng, tables, grid_ok, force=None):
     if (not numeric) or rng.random() < 0.3:
         cols = add_cols("equipment", plain, [tb["eqTimeKey"], tb["eqCostKey"], tb["srcSpatial"], tb["srcTemporal"]], numeric)
         rows = []
-        empty = rng.choice(["e1", "e2", "e3"]) if force.get("empty_group", rng.random() < 0.05) else None
-        for name in ("e1", "e2", "e3"):
+        # the equipment file may label a component column `<type>_Equipment` (the code strips the suffix)
+        col_of = {ct: (ct + rng.choice(["_Equipment", "_equipment"]) if rng.random() < 0.1 else ct) for ct in comp_types}
+        empty = rng.choice(eq_names) if force.get("empty_group", rng.random() < 0.05) else None
+        for name in eq_names:
             while True:
                 counts = {ct: rng.choice([0, 1, 1, 2, 3]) for ct in comp_types}
                 if 1 <= sum(counts.values()) <= 6:
                     break
             if name == empty:
                 counts = {ct: 0 for ct in comp_types}      # an equipment group without components
-            if name == "e2" and force.get("blank_count"):
+            if name == eq_names[1] and force.get("blank_count"):
                 counts[comp_types[0]] = None               # a blank count cell: the column is read as floats
-            if name == "e2" and force.get("noninteger_count"):
+            if name == eq_names[1] and force.get("noninteger_count"):
                 counts[comp_types[0]] = 1.5
             row = {"equipment": name}
-            row.update(counts)
+            row.update({col_of[ct]: v for ct, v in counts.items()})
             fill(row, cols, "equipment")
             rows.append(row)
-        ccols = comp_types + [c for c, _ in cols]
+        ccols = [col_of[ct] for ct in comp_types] + [c for c, _ in cols]
         rng.shuffle(ccols)
         equipment = {"cols": ["equipment"] + ccols, "rows": rows}
 
     # site type file -----------------------------------------------------------------------------
     have_types = rng.random() < 0.7 or bool(force.get("type_equip_only"))
-    type_names = ["A", "B"]
+    type_names = list(rng.choice(TYPE_NAME_SETS))
     site_equip_col = rng.random() < (0.6 if have_types else (0.8 if numeric else 1.0))
     if (not numeric and not have_types) or frac_q:
         site_equip_col = True
@@ -338,7 +350,7 @@ def gen_case(rng, tables, grid_ok, force=None):
     def equip_cell():
         if numeric:
             return None   # filled in below, once the rate in effect at every site is known
-        names = rng.choice(EQUIP_STRINGS)
+        names = [eq_names[i] for i in rng.choice(EQUIP_STRINGS)]
         sep = rng.choice([",", ";"])
         return sep.join(names) + rng.choice(["", "", ";"])
 
@@ -359,7 +371,12 @@ def gen_case(rng, tables, grid_ok, force=None):
     n_rows = rng.choice([2, 3, 4] if force.get("dup_ids") else [1, 2, 3, 3, 4, 5, 6])
     cols = add_cols("sites", plain, all_meth, numeric)
     rows = []
-    ids = rng.sample(range(1, 60), n_rows)
+    ids = rng.sample(range(1, 120), n_rows)
+    id_style = rng.choice(["int", "int", "str", "padded"])
+    if id_style == "str":
+        ids = ["S%d" % i for i in ids]         # S9 / S10 / S100: lexicographic order differs from the numeric one
+    elif id_style == "padded":
+        ids = ["site_%d_a" % i for i in ids]
     for i in range(n_rows):
         row = {"site_ID": ids[i], "lat": 50 + i, "lon": -110 - i, "site_type": rng.choice(type_names)}
         if site_equip_col:
@@ -416,7 +433,7 @@ def gen_case(rng, tables, grid_ok, force=None):
         if force.get("missing_meth", rng.random() < 0.08):
             # parameters whose (last) path element is missing from the method's file: code default 0
             missing[me] = rng.sample(list(tb["globalMeth"]), rng.randint(1, 2))
-    return {"mode": mode, "missing_meth": missing, "methods": methods, "global": glob, "global_meth": gmeth, "types": types,
+    return {"mode": mode, "missing_meth": missing, "start_date": list(rng.choice(START_DATES)), "methods": methods, "global": glob, "global_meth": gmeth, "types": types,
             "sites": sites, "equipment": equipment, "sources": sources, "n_sites": n_sites,
             "np_seed": rng.randrange(1 << 30)}
 
@@ -458,6 +475,12 @@ def _f(v):
         return _frac(v)
     except (TypeError, ValueError, OverflowError):
         return _Bad(v)
+
+
+def comp_type(col):
+    """component type of an equipment-file column: the `_equipment` suffix (any case) is dropped"""
+    import re
+    return re.sub(re.compile(re.escape("_equipment"), re.IGNORECASE), "", col)
 
 
 def _split_names(raw):
@@ -546,12 +569,11 @@ def oracle(ctx, case, tables, status, world, picks, collect=None):
                 continue
             for gname in _split_names(eqv):
                 erow = eq_rows[gname]
-                comp_cols = [c for c in case["equipment"]["cols"][1:] if c in ("c1", "c2", "c3")]
-                for ct in comp_cols:
-                    if not erow.get(ct):
+                for col in P.count_columns(case, tables):
+                    if not erow.get(col):
                         continue
                     for r in (src_rows or []):
-                        if r["component"] != ct:
+                        if r["component"] != comp_type(col):
                             continue
                         pre = rep_p if r["repairable"] else non_p
                         for k in (tb["srcErs"], tb["srcEpr"]):
@@ -624,6 +646,11 @@ def oracle(ctx, case, tables, status, world, picks, collect=None):
         def site_chain(key):
             return [("site", srow.get(key)), ("type", trow.get(key) if trow else None), ("global", G.get(key))]
 
+        import datetime
+        want_date = datetime.date(*(case.get("start_date") or [2023, 1, 1]))
+        if s.get("tag_date") != want_date:
+            viol("C15:site:latest-tagging-date", f"site {s['sid']}: latest tagging survey date {s.get('tag_date')}, "
+                 f"simulation start {want_date}", inp)
         # ---- site-level method parameters
         for i, me in enumerate(methods):
             for attr, suf in (("freq", tb["freqKey"]), ("months", tb["monthsKey"]), ("years", tb["yearsKey"]),
@@ -661,8 +688,9 @@ def oracle(ctx, case, tables, status, world, picks, collect=None):
         else:
             names = _split_names(eqv)
             div = len(names)
-            comp_cols = [c for c in case["equipment"]["cols"][1:] if c in ("c1", "c2", "c3")]
-            want_groups = [(nm, eq_rows[nm], [(c, int(eq_rows[nm].get(c) or 0)) for c in comp_cols]) for nm in names]
+            comp_cols = P.count_columns(case, tables)
+            want_groups = [(nm, eq_rows[nm], [(comp_type(c), int(eq_rows[nm].get(c) or 0)) for c in comp_cols])
+                           for nm in names]
             if collect is not None:
                 collect.add(("named", len(names), len(set(names)) != len(names)))
         if [g["gid"] for g in s["groups"]] != [w[0] for w in want_groups]:
@@ -826,10 +854,22 @@ def grid_ok():
     return out
 
 
-def check_case(ctx, case, tables, extra, collect=None):
+def check_case(ctx, case, tables, extra, collect=None, probes=False):
     """implementation + oracle for one case; returns (status, world/what, picks)"""
     from harness.adapters import propagate as P
-    status, world, sample = P.run_impl(case, extra)
+    status, world, sample = P.run_impl(case, extra, probes=probes)
+    if probes and status == "ok":
+        # same-process and execution-mode probes on the real objects: the parameter dicts handed in are
+        # unchanged, a second world built from the very same dict objects is equal, the world survives a
+        # pickle round trip (__reduce__/_reconstruct) and a deepcopy (programs copy the infrastructure)
+        for name, res in P.LAST_PROBE.items():
+            ctx.count("probe:" + name)
+            if res is not True:
+                sig = {"input-unchanged": "C15:history:input-dicts-mutated",
+                       "rebuild-from-same-dicts": "C15:history:rebuild-from-same-dicts-differs",
+                       "pickle": "C15:roundtrip:pickle", "deepcopy": "C15:roundtrip:deepcopy"}[name]
+                ctx.violate(sig, "probe %s failed (%s): the values in effect depend on more than the files and "
+                            "parameters of this world" % (name, res), {"case": case, "probe": name})
     if status == "infra":
         raise core.InfraError("CSV round trip: " + world)
     # the sample is an input of the model: the rows the implementation actually drew, in its order
@@ -846,9 +886,20 @@ def run(ctx):
     from harness.extract import levels
     from harness.adapters import propagate as P
 
-    tables, extra, changed, sha = levels.regenerate()
-    ctx.extra["generated_levels_sha"] = sha
-    ctx.extra["generated_levels_changed"] = changed
+    ctx.obligations.append("extract-levels")
+    try:
+        tables, extra, changed, sha = levels.regenerate()
+        ctx.discharged.append("extract-levels")
+        ctx.extra["generated_levels_sha"] = sha
+        ctx.extra["generated_levels_changed"] = changed
+    except Exception as e:   # the source no longer has the shape the extractor reads
+        # not an infrastructure error: a broken obligation, and the search for a failing input goes on with
+        # the tables of the last successful extraction (Generated/Levels.lean stays as it was)
+        ctx.broke("extract-levels", "%s: %s" % (type(e).__name__, e))
+        try:
+            tables, extra = levels.last_good()
+        except Exception:
+            raise core.InfraError("extractor failed and no earlier extraction is available: %s" % e)
     ctx.rule = ("case = input folder (sites, site type, equipment, sources CSV) + virtual-world/method dicts from "
                 "the real defaults; each propagating parameter gets a column at each level with probability "
                 "0.25/0.5/0.8 and each cell is filled with probability 0.3/0.6/0.9/1; named equipment (<=3 groups, "
@@ -881,7 +932,7 @@ def run(ctx):
                   "duplicate-free sample the model takes as input is no longer what the code draws" % extra["sampleCall"])
     micro_correspondence(ctx, tables)
 
-    n_cases = ctx.pick(800, 9000)
+    n_cases = ctx.pick(720, 8000)
     cases = degenerate_cases(ctx.rng, tables, ok_grid, ctx.pick(1, 8))
     ctx.count("degenerate_family", len(cases))
     forced = [{"mode": "named"}, {"mode": "numeric"}, {"mode": "named", "reject": True}, {"mode": "numeric", "reject": True}]
@@ -890,9 +941,9 @@ def run(ctx):
 
     collect = set()
     lines, spans, impl = [], [], []
-    for case in cases:
+    for ci, case in enumerate(cases):
         before = len(ctx.violations)
-        status, world, picks = check_case(ctx, case, tables, extra, collect)
+        status, world, picks = check_case(ctx, case, tables, extra, collect, probes=(ci % 6 == 0))
         ctx.evaluations += 1
         ctx.count("impl:" + status)
         ctx.count("mode:" + case["mode"])
@@ -927,6 +978,23 @@ def run(ctx):
         ctx.traces += 1
         if len(ctx.samples) < 3 and status == "ok":
             ctx.sample({"mode": case["mode"], "sites": len(world), "model==impl": il == ml, "world": il[:300]})
+    # ---- same-process history: the cases above share site ids, type / equipment / component / method /
+    # source names with different contents; a sample of them is built again at the end, in reverse order
+    # (so each has been preceded once by the other), and must give the very same world as the first time
+    first = {}
+    for case, (status, world, vt, _) in zip(cases, impl):
+        if status == "ok":
+            first[id(case)] = P.dump_world(world, P.ValTable(), case, tables)
+    again = [c for c in cases if id(c) in first][: ctx.pick(60, 500)]
+    for case in reversed(again):
+        status, world, _ = P.run_impl(case, extra)
+        ctx.evaluations += 1
+        ctx.count("history_reruns")
+        now = P.dump_world(world, P.ValTable(), case, tables) if status == "ok" else status + ":" + str(world)
+        if now != first[id(case)]:
+            ctx.violate("C15:history:rerun-differs", "the same input folder and parameters give a different world "
+                        "when built again later in the same process", {"case": case, "first": first[id(case)][:1500],
+                                                                       "again": now[:1500]})
     for k in collect:
         if any(k[1:]) or k[0] in ("placeholder", "named"):
             ctx.nontrivial.add(k)
@@ -1005,9 +1073,26 @@ def replay(ctx, data):
             print(" model:", d.get("model"))
             print(" impl :", d.get("impl"))
         return 1
-    tables, extra = levels.extract()
+    try:
+        tables, extra = levels.extract()
+    except Exception:
+        tables, extra = levels.last_good()
     case = inp["case"]
-    status, world, picks = check_case(ctx, case, tables, extra)
+    # the failing input may need a history: two other worlds are built first in this process, the case is
+    # judged, two more are built, and the case must then give the same world again
+    import random
+    rng, ok_grid = random.Random(1), grid_ok()
+    for _ in range(2):
+        P.run_impl(gen_case(rng, tables, ok_grid), extra)
+    status, world, picks = check_case(ctx, case, tables, extra, probes=True)
+    if status == "ok":
+        first = P.dump_world(world, P.ValTable(), case, tables)
+        for _ in range(2):
+            P.run_impl(gen_case(rng, tables, ok_grid), extra)
+        st2, w2, _ = P.run_impl(case, extra)
+        if st2 != "ok" or P.dump_world(w2, P.ValTable(), case, tables) != first:
+            ctx.violate("C15:history:rerun-differs", "the same input gives a different world when built again "
+                        "later in the same process", {"case": case})
     if status == "ok":
         vt = P.ValTable()
         lines = P.model_lines(case, tables, vt, picks)
